@@ -19,6 +19,7 @@
 import KavaVerif.Proofs.CommitteePerm
 import KavaVerif.Proofs.CommitteeLife
 import KavaVerif.Generated.C17Router
+import KavaVerif.Proofs.TieFnCommittee
 set_option linter.unusedSimpArgs false
 set_option linter.unusedVariables false
 
@@ -528,5 +529,18 @@ theorem C17_handler_failure_rejected_at_submit (env : Env Ext C Pm) (s : St Ext 
   intro s' hs
   obtain ⟨_, _, _, _, hval, _⟩ := submit_ok_shape env s s' now pr cid c hs
   simp [validatePub, h] at hval
+
+/-! ## source tie (regenerated)
+
+    `GoFn.Committee.*` (Generated/FnCommittee.lean) is regenerated on every run from the Go source of
+    x/committee/types/committee.go by the function translator (tools/extract/fn*.go).
+    Proof: Proofs/TieFnCommittee.lean. -/
+
+/-- `Proposal.HasExpiredBy(now)` is `now ≥ deadline` — the deadline test the model's `vote` / close paths write
+    inline ("all votes must be cast before deadline, those cast at time == deadline are not valid") -/
+theorem C17_source_tie_HasExpiredBy (id cid deadline now : Int) :
+    GoFn.Committee.HasExpiredBy_translated = true ∧
+    GoFn.Committee.HasExpiredBy ⟨id, cid, deadline⟩ now = Go.R.ok (decide (now ≥ deadline)) :=
+  TieFn.committee_HasExpiredBy id cid deadline now
 
 end KV.C17
